@@ -18,7 +18,11 @@ pub fn on_reclaim_decision(sh: &mut Shadow, block: usize, depth: usize, curr_epo
     // The stamp in the child's count word at this point is the merge the cascade just wrote:
     // max(parent stamp, link stamp, child's own last stamp), see `merge_child_stamp`.
     let Some(stamp) = ob.stamp_full else { return };
+    let oldest = ob.stamp_min.unwrap_or(stamp);
     let age = curr_epoch.saturating_sub(stamp);
+    let oldest_age = curr_epoch.saturating_sub(oldest);
+    // every stamp that took part is real and lies in the window the 4-bit comparison resolves
+    let in_window = !ob.stamp_tainted && curr_epoch >= stamp && age >= 3 && oldest_age <= 13;
     if now {
         sh.c12_checked += 1;
         if curr_epoch >= stamp && age < 3 {
@@ -28,15 +32,15 @@ pub fn on_reclaim_decision(sh: &mut Shadow, block: usize, depth: usize, curr_epo
             );
             crate::sched::sim().violation("C12", "reclaimed-too-young", "reclaimed-too-young", &det);
         }
-    } else if (3..=13).contains(&age) && curr_epoch >= 3 {
+        if in_window {
+            sh.c12_window_checked += 1;
+        }
+    } else if in_window {
         sh.c12_window_checked += 1;
         let det = format!(
-            "child #{} re-deferred at epoch {} although all its stamps are old (youngest written at epoch {}, true age {} in the unambiguous window)",
-            o, curr_epoch, stamp, age
+            "child #{} re-deferred at epoch {} although all its stamps are old and unambiguous (youngest written at epoch {}, oldest at {}; 4-bit stamp in its count word: {})",
+            o, curr_epoch, stamp, oldest, crate::shadow::read_state(ob.state_addr) >> 60
         );
         sh.soft("C12", "deferred-although-old", det);
-    }
-    if now && (3..=13).contains(&age) {
-        sh.c12_window_checked += 1;
     }
 }
